@@ -320,6 +320,15 @@ PROPS["C28"] = dict(
     explanation="Bounded stand-in only: generated registered data objects (flat, nested one and two levels, RawDom) with fields from the common representable domain, three codecs, classes "
                 "defined in modules with and without `from __future__ import annotations`, and malformed messages injected mid-run (state surviving between conversions).")
 PROPS["C29"] = dict(
-    contracts=[], harness="harness.c29", level="exploration", technique="bounded runtime precondition on every filesystem call of the real Filer (inside the head directory), in a throw-away sandbox -- stand-in",
-    explanation="Bounded stand-in only: all combinations of temp, clean, filed, extensioned x names/bases incl. dotted and `..` segments (sampled in the quick tier, exhaustive in thorough), each followed by "
-                "close(clear) / reopen(clear) / reopen(temp=True, clear=True); makedirs/remove/rmtree/open arguments must resolve inside the head (or the Filer's own mkdtemp dir); sibling and outside content must survive.")
+    contracts=["contracts.c29_filer"], harness="harness.c29", level="other",
+    technique="contract-based deductive verification (pyvc) of Filer._clearPath / close / reopen with the file system as uninterpreted predicates; bounded runtime precondition "
+              "on every filesystem call of the real Filer (inside the head directory) in a throw-away sandbox for remake and whole life cycles",
+    trusted_base=["os.path.exists / isfile arbitrary predicates of the path string, os.path.split = (DIRNAME, BASENAME) uninterpreted, os.remove / shutil.rmtree / ocfn logged; "
+                  "Filer.remake summarised (returns some path and file) inside the reopen contract"],
+    assumptions=["that remake's path (head/tail/base/name) lies inside the head directory is NOT under contract: bounded tier (the '..' finding lives there)"],
+    explanation="PROVED (symbolic paths and flags): _clearPath deletes nothing without an existing path and otherwise exactly the file at .path (plus, only for a temp resource, its "
+                "own directory) or the directory tree at .path -- no other path ever reaches a deleting call; close clears iff asked, after flushing and closing the file; reopen "
+                "first closes/clears the resource AS IT IS (old path, old temp flag) and only then applies the overrides and re-makes from the instance's own name and base, so a "
+                "reopen can only delete what the Filer held before. BOUNDED: all combinations of temp, clean, filed, extensioned x names/bases incl. dotted and `..` segments "
+                "(sampled in the quick tier, exhaustive in thorough), each followed by close(clear) / reopen(clear) / reopen(temp=True, clear=True) on a real file system; "
+                "makedirs/remove/rmtree/open arguments must resolve inside the head (or the Filer's own mkdtemp dir); sibling and outside content must survive.")
